@@ -158,12 +158,13 @@ def run_n2(A, f, ref, n, a, b, mode):
 
 def run_n1(A, f, ref, n, a, delta):
     """rp = sp + delta limbs (delta==None: separate)"""
-    os_ = G + 4
+    os_ = G + 4 + (max(0, -delta) if delta is not None else 0)      # room below the source for destinations at lower addresses
     if delta is None:
         orr = os_ + n + G
     else:
         orr = os_ + delta
     end = max(os_, orr) + n + G + 4
+    assert orr >= G and end <= A.nl
     A.reset(end)
     A.put(os_, a, n)
     ret = f(A.addr(orr), A.addr(os_), n)
@@ -189,9 +190,10 @@ def run_n1(A, f, ref, n, a, delta):
 
 
 def run_sh(A, f, ref, n, a, c, delta):
-    os_ = G + 4
+    os_ = G + 4 + (max(0, -delta) if delta is not None else 0)
     orr = os_ + n + G if delta is None else os_ + delta
     end = max(os_, orr) + n + G + 4
+    assert orr >= G and end <= A.nl
     A.reset(end)
     A.put(os_, a, n)
     ret = f(A.addr(orr), A.addr(os_), n, c)
